@@ -125,24 +125,41 @@ def fold(singles_k, zero_k, idxs):
   return st
 
 
-def make_batch(pool, poison, idxs, pad, kind, with_mask=True):
+def make_batch(pool, poison, idxs, pad, kind, with_mask=True, layout='tail'):
+  """layout: where the masked rows sit - 'tail' (what the library's padding produces), 'front' or 'interleaved'
+  (hand-built batches: the statement puts no restriction on the position of masked rows)."""
   rows = [pool[i] for i in idxs]
   n = len(rows)
+  pads = []
   if pad:
     if kind == 'zeros':
       z = {'y': np.zeros_like(np.asarray(pool[0]['y'])).tolist(),
            'pred': np.zeros_like(np.asarray(pool[0]['pred'])).tolist(), 'domain_id': 0}
-      rows = rows + [z] * pad
+      pads = [z] * pad
     elif kind == 'copy':
-      rows = rows + [rows[j % n] if n else poison for j in range(pad)]
+      pads = [rows[j % n] if n else poison for j in range(pad)]
     else:
-      rows = rows + [poison] * pad
+      pads = [poison] * pad
+  if layout == 'tail' or not pads:
+    allrows, mask = rows + pads, [True] * n + [False] * len(pads)
+  elif layout == 'front':
+    allrows, mask = pads + rows, [False] * len(pads) + [True] * n
+  else:
+    allrows, mask = [], []
+    pi = 0
+    for r in rows:
+      if pi < len(pads):
+        allrows.append(pads[pi]); mask.append(False); pi += 1
+      allrows.append(r); mask.append(True)
+    while pi < len(pads):
+      allrows.append(pads[pi]); mask.append(False); pi += 1
+  rows = allrows
   b = {'y': np.asarray([r['y'] for r in rows], np.int32).reshape((len(rows),) + np.asarray(pool[0]['y']).shape),
        'pred': np.asarray([r['pred'] for r in rows], np.float32).reshape(
            (len(rows),) + np.asarray(pool[0]['pred']).shape),
        'domain_id': np.asarray([r['domain_id'] for r in rows], np.int32)}
   if with_mask:
-    b[MASK] = np.arange(len(rows)) < n
+    b[MASK] = np.asarray(mask, bool)
   return b
 
 
@@ -175,7 +192,7 @@ def batch_level(case):
     seq = list(seq)
     nc = dict(case, seq=seq)
     with_mask = not (pad == 0 and case.get('nomask'))
-    b = make_batch(pool, poison, seq, pad, kind, with_mask)
+    b = make_batch(pool, poison, seq, pad, kind, with_mask, case.get('layout', 'tail'))
     res = fedjax.evaluate_model(model, {}, [b])
     for k in mets:
       _cmp_result(k, res[k], fold(singles[k], zeros[k], seq), 'evaluate_model on one batch', nc)
@@ -192,7 +209,7 @@ def batch_level(case):
     evals += 1
     outs.add(core.digest([np.asarray(res[k]).round(4).tolist() for k in sorted(mets)]))
   return {'evals': evals, 'outcomes': sorted(outs), 'nontrivial': pad > 0 or n > 1,
-          'keys': [[fam, n, pad, kind, bool(case.get('nomask'))]]}
+          'keys': [[fam, n, pad, kind, bool(case.get('nomask')), case.get('layout', 'tail')]]}
 
 
 def compositions(n):
@@ -342,6 +359,9 @@ def plan(ctx):
           continue
         bl.append({'family': fam, 'n': n, 'pad': pad, 'kind': kind, 'direct': n <= (3 if th else 2) and pad <= 1})
       bl.append({'family': fam, 'n': max(n, 1), 'pad': 0, 'kind': 'zeros', 'nomask': True})
+      if 1 <= n <= 3:
+        for layout in ('front', 'interleaved'):
+          bl.append({'family': fam, 'n': n, 'pad': 2 if n > 1 else 1, 'kind': 'poison', 'layout': layout})
   bl += [{'family': 'seq_pdpp', 'n': n, 'pad': pad, 'kind': 'poison'} for n in (1, 2) for pad in (0, 1)]
   ctx.pmap('batch_level', bl, chunk=1)
   pl = []
